@@ -96,7 +96,7 @@ void fatal_install() {
     sigaltstack(&ss, nullptr);
     struct sigaction sa; std::memset(&sa, 0, sizeof sa);
     sa.sa_handler = on_signal; sa.sa_flags = SA_ONSTACK | SA_NODEFER;
-    for (int s : {SIGSEGV, SIGBUS, SIGFPE, SIGILL}) sigaction(s, &sa, nullptr);
+    for (int s : {SIGSEGV, SIGBUS, SIGFPE, SIGILL, SIGABRT}) sigaction(s, &sa, nullptr);
 #endif
 }
 
